@@ -5,7 +5,7 @@ cd "$(dirname "$0")/../rigs"; . ../.build/applied.env
 prop=$1; n=${2:-300}; a=${3:-8573157376}
 d=$(mktemp -d)
 i=0
-for g in 1 1 4 4 16 16; do i=$((i+1)); GOMAXPROCS=$g ../.build/rigs.test -test.run '^TestWorker$' -sim.prop $prop -sim.seeds $a:$((a+n)) -sim.out $d/$i.jsonl -sim.log >/dev/null 2>&1 & done; wait
+for g in ${GOMAXLIST:-1 1 4 4 16 16}; do i=$((i+1)); GOMAXPROCS=$g ../.build/rigs.test -test.run '^TestWorker$' -sim.prop $prop -sim.seeds $a:$((a+n)) -sim.out $d/$i.jsonl -sim.log >/dev/null 2>&1 & done; wait
 python3 - $d <<'PY'
 import json,glob,sys
 tabs=[]
